@@ -326,7 +326,36 @@ def ovfconst_rule(chk, db):
     """OVFCONST: the overflow checkers compare with limit / base and |limit % base| - the only thresholds for which
     `value > q or (value == q and digit > r)` is exactly "value * base + digit does not fit" (for the signed checker the
     accumulator is negative: min / base and |min % base|). Decided on the arithmetic skeleton of the initialisers."""
+    from ..rules import intfb as _IFB
+
+    def mentions_base(e):
+        return any(x.get("k") in ("mem", "ref") and "base" in (x.get("n") or "").lower() for x in astx.walk_expr(e))
+
+    def limval(e):
+        """a base-free expression of the *unsigned* checker, evaluated for 8/16/32/64-bit Int: 'max' when it is the
+        largest value for every width, ('value', {...}) when it is something else, None when it is not understood"""
+        if e is None or mentions_base(e):
+            return None
+        vals = {}
+        for w in (8, 16, 32, 64):
+            try:
+                vals[w] = _IFB.eval_expr(e, w, tparam=tp_name[0])
+            except _IFB.NM:
+                return None
+        if all(v == (1 << w) - 1 for w, v in vals.items()):
+            return "max"
+        w = [w for w, v in sorted(vals.items()) if v != (1 << w) - 1][0]
+        return ("value", "0x%x for a %d-bit type (the largest value is 0x%x)" % (vals[w], w, (1 << w) - 1))
+    tp_name = ["Int"]
+
     def sk(e):
+        if unsigned_now[0]:
+            v = limval(e)
+            if v is not None:
+                return v
+        return sk0(e)
+
+    def sk0(e):
         e = astx.strip_casts(e)
         if e is None:
             return None
@@ -354,6 +383,7 @@ def ovfconst_rule(chk, db):
     spec = {"unsigned_overflow_checker": ("max", ("/", "max", "base"), [("%", "max", "base")]),
             "signed_overflow_checker": ("min", ("/", "min", "base"), [("abs", ("%", "min", "base")), ("neg", ("%", "min", "base"))])}
     n = 0
+    unsigned_now = [False]
     for rq, (lim, wdiv, wmods) in spec.items():
         rec = db.record("etl::strings::detail::" + rq)
         if rec is None:
@@ -362,15 +392,33 @@ def ovfconst_rule(chk, db):
         n += 1
         construct = "etl::strings::detail::" + rq
         chk.instance("OVFCONST")
-        div = [fd for fd in rec["fields"] if "div" in fd["n"].lower() and "nsdmi" in fd]
-        mod = [fd for fd in rec["fields"] if "mod" in fd["n"].lower() and "nsdmi" in fd]
+        unsigned_now[0] = rq.startswith("unsigned")
+        tps_ = [tp["n"] for tp in (rec.get("tparams") or []) if tp.get("k") == "type"]
+        tp_name[0] = tps_[0] if tps_ else "Int"
+        div = [dict(fd, init=fd["nsdmi"]) for fd in rec["fields"] if "div" in fd["n"].lower() and "nsdmi" in fd]
+        mod = [dict(fd, init=fd["nsdmi"]) for fd in rec["fields"] if "mod" in fd["n"].lower() and "nsdmi" in fd]
+        if not div and not mod:
+            # the thresholds may be set by the constructor's member initialisers instead
+            ctors = [f for f in db.funcs if f.get("record") == construct and f["n"] == "<ctor>" and f.get("inits") and f.get("params")]
+            if len(ctors) == 1:
+                for it in ctors[0]["inits"]:
+                    fld = (it.get("field") or "").lower()
+                    if "div" in fld:
+                        div.append({"n": it["field"], "line": it.get("line"), "init": it["e"]})
+                    elif "mod" in fld:
+                        mod.append({"n": it["field"], "line": it.get("line"), "init": it["e"]})
         bad = None
         unknown = None
         if len(div) != 1 or len(mod) != 1:
-            unknown = "the quotient / remainder thresholds are not two members with default initialisers"
+            unknown = "the quotient / remainder thresholds are not two members with an initialiser"
         else:
-            d_, m_ = sk(div[0]["nsdmi"]), sk(mod[0]["nsdmi"])
-            if d_ != wdiv:
+            d_, m_ = sk(div[0]["init"]), sk(mod[0]["init"])
+
+            def has_none(t):
+                return t is None or (isinstance(t, tuple) and t[0] != "value" and any(has_none(x) for x in t[1:]))
+            if (d_ != wdiv and has_none(d_)) or (m_ not in wmods and has_none(m_)):
+                unknown = "a threshold initialiser is not understood"
+            elif d_ != wdiv:
                 bad = (div[0], d_, wdiv)
             elif m_ not in wmods:
                 bad = (mod[0], m_, wmods[0])
